@@ -99,6 +99,8 @@ def build(tier, repo):
     r1 = chk.rule("C03-R1", "'optimal' of coneqp dominated by the stop test on the reported quantities; shortcut only under cdim == 0",
                   "KKT residual and gap conditions hold for the returned fields")
     tm.check_optimal(r1, w, "coneprog", "coneqp", coneqp_shortcut)
+    tm.check_relgap(r1, w, "coneprog", "coneqp")
+    tm.check_residual_normalisers(r1, w, "coneprog", "coneqp")
     r1.require(6)
     r2 = chk.rule("C03-R2", "loop bound", "iterations <= maxiters")
     tm.check_loop_bound(r2, w, "coneprog", "coneqp")
@@ -149,6 +151,15 @@ def build(tier, repo):
                   "only the lower triangle of P is read")
     factory_state_rule(r8, w)
     r8.require(6)
+    r9 = chk.rule("C03-R9", "base.gemv (the G and A products of coneqp) with an empty inner dimension scales y by the caller's beta",
+                  "residuals accumulate q + Px + G'z + A'y also when A is an explicit 0 x n matrix")
+    from .. import cfront as cf
+    from .. import cwrap_rules as cw
+    from .. import kb_blas as kbb
+    cb = cf.load_c(repo, files=["base.c"])["base.c"]
+    cw.fallback_scale_rule(r9, cb, "base_gemv", "gemv", kbb)
+    r9.require(2)
+
     r6 = chk.rule("C03-R6", "cone-space vectors normed with misc.snrm2/sdot", "documented relative norms")
     rc.norm_discipline(r6, w, "coneprog", "coneqp")
     r6.require(4)
